@@ -358,7 +358,13 @@ void vfps::HDF5File::addParameterToGroup(std::string groupname,
 void vfps::HDF5File::append(const ElectricField* ef, const bool fullspectrum)
 {
     if (fullspectrum) {
-        _appendData(_csrSpectrum,ef->getCSRSpectrum());
+        // file holds the first half of each bunch's spectrum (row stride differs)
+        std::vector<csrpower_t> spectrum(_nBunches*_maxn);
+        for (size_t b=0; b<_nBunches; b++) {
+            std::copy_n(ef->getCSRSpectrum()+b*ef->getNMax(),_maxn,
+                        spectrum.data()+b*_maxn);
+        }
+        _appendData(_csrSpectrum,spectrum.data());
     }
     _appendData(_csrIntensity,ef->getCSRPower());
 }
